@@ -161,4 +161,47 @@ def handleSolo (j : Json) : R Json := do
   let ts := soloTimes reg (← floatF j "now") (rowMajor n rows)
   return jObj [("times", jArr (ts.map jFloat))]
 
+/-- The generated constants as the driver sees them, and the generated arithmetic evaluated at the
+given points (`pts`: peal minutes, bells, a, b, t, stage, gap, start, interval, row, place, x). -/
+def handleGenerated (j : Json) : R Json := do
+  let q (p : Nat × Nat) : Json := jArr [jNat p.1, jNat p.2]
+  let pnd (d : List (Int × String)) : Json := jArr (d.map (fun (k, v) => jArr [Json.num (JsonNumber.fromInt k), Json.str v]))
+  let rd (d : List (Nat × (String × String))) : Json :=
+    jArr (d.map (fun (k, (h, b)) => jArr [jNat k, Json.str h, Json.str b]))
+  let pts ← arrF j "pts"
+  let evals ← pts.mapM (fun p => do
+    let m ← floatF p "m"
+    let n ← natF p "n"
+    let a ← floatF p "a"
+    let b ← floatF p "b"
+    let t ← floatF p "t"
+    let l : Line Float := { stage := ← natF p "stage", gap := ← floatF p "gap", start := ← floatF p "start",
+                            interval := ← floatF p "interval" }
+    let row ← natF p "row"
+    let place ← natF p "place"
+    let x ← floatF p "x"
+    return jObj [("interval", jFloat (Generated.pealSpeedToBlowInterval m n)),
+                 ("lerp", jFloat (Generated.lerp a b t)),
+                 ("inverse_lerp", jFloat (Generated.inverseLerp a b t)),
+                 ("index_to_blow_time", jFloat (Generated.indexToBlowTime l row place)),
+                 ("blow_time_to_real_time", jFloat (Generated.blowTimeToRealTime l x)),
+                 ("index_to_real_time", jFloat (Generated.indexToRealTime l row place)),
+                 ("real_time_to_blow_time", jFloat (Generated.realTimeToBlowTime l x))])
+  return jObj [
+    ("bellNames", Json.str (String.ofList Generated.bellNames)),
+    ("stages", jArr (Generated.stages.map (fun (k, v) => jArr [Json.str k, jNat v]))),
+    ("defaultBob", pnd Generated.defaultBob), ("defaultSingle", pnd Generated.defaultSingle),
+    ("dixonRules", rd Generated.dixonRules), ("dixonBob", rd Generated.dixonBob),
+    ("dixonSingle", rd Generated.dixonSingle),
+    ("lookToDuration", q Generated.lookToDuration), ("inactivityExitTime", q Generated.inactivityExitTime),
+    ("weightRejectionThreshold", q Generated.weightRejectionThreshold),
+    ("waitSleepTime", q Generated.waitSleepTime), ("idlePoll", q Generated.idlePoll),
+    ("tickSleep", q Generated.tickSleep), ("minBellsInDataset", jNat Generated.minBellsInDataset),
+    ("upDownInHand", jNat Generated.upDownInHand), ("upDownInBack", jNat Generated.upDownInBack),
+    ("calls", jObj [("LOOK_TO", Json.str Generated.call_LOOK_TO), ("GO", Json.str Generated.call_GO),
+                    ("BOB", Json.str Generated.call_BOB), ("SINGLE", Json.str Generated.call_SINGLE),
+                    ("THATS_ALL", Json.str Generated.call_THATS_ALL), ("ROUNDS", Json.str Generated.call_ROUNDS),
+                    ("STAND", Json.str Generated.call_STAND)]),
+    ("evals", jArr evals)]
+
 end Drv
